@@ -171,11 +171,13 @@ class Network(Cached):
         self.silence_level: int = silence_level
         """higher -> less progress info"""
 
-        self._mut_A: int = 0
+        # NOTE: `__init__()` is re-run on live objects by some subclasses
+        # (e.g. when a threshold is changed), hence counters are preserved
+        self._mut_A: int = getattr(self, "_mut_A", 0)
         """mutation count tracking `self.adjcency`"""
-        self._mut_nw: int = 0
+        self._mut_nw: int = getattr(self, "_mut_nw", 0)
         """mutation count tracking `self.node_weights`"""
-        self._mut_la: int = 0
+        self._mut_la: int = getattr(self, "_mut_la", 0)
         """mutation count tracking `self.graph.es`"""
 
         self.N: int = 0
